@@ -574,12 +574,12 @@ BUILDUPS = [
     ("format_starred_nested", ["v = '{}{}'.format(*[*['a'], 'b'])"]),
     ("format_starred_name", ["v = '{}'.format(*w)"]),
     ("format_starred_bad", ["v = '{}{}'.format(*['a', foo()])"]),
-    ("format_starred_order", ["a.b, k = 1, 2", "v = '{}{}'.format(*[k], *[foo()])"]),
-    ("format_starred_order_rev", ["a.b, k = 1, 2", "v = '{}{}'.format(*[foo()], *[k])"]),
-    ("format_starred_bfs", ["a.b, k = 1, 2", "v = '{}{}'.format(*[k], foo())"]),
-    ("format_starred_bfs_nested", ["a.b, k = 1, 2", "v = '{}{}'.format(*[*[k]], *[foo()])"]),
-    ("format_arg_crash_first", ["a.b, k = 1, 2", "v = '{}{}'.format(k, foo())"]),
-    ("format_arg_crash_later", ["a.b, k = 1, 2", "v = '{}{}'.format(foo(), k)"]),
+    ("format_starred_order", ["w, k = 'a',", "v = '{}{}'.format(*[k], *[foo()])"]),
+    ("format_starred_order_rev", ["w, k = 'a',", "v = '{}{}'.format(*[foo()], *[k])"]),
+    ("format_starred_bfs", ["w, k = 'a',", "v = '{}{}'.format(*[k], foo())"]),
+    ("format_starred_bfs_nested", ["w, k = 'a',", "v = '{}{}'.format(*[*[k]], *[foo()])"]),
+    ("format_arg_crash_first", ["w, k = 'a',", "v = '{}{}'.format(k, foo())"]),
+    ("format_arg_crash_later", ["w, k = 'a',", "v = '{}{}'.format(foo(), k)"]),
     ("format_nested_call", ["v = '{}'.format('{}'.format('a'))"]),
     ("format_nested_bad", ["v = '{}'.format('{}'.format(foo()))"]),
     ("format_of_name", ["fmt = '{}'", "v = fmt.format('a')"]),
@@ -744,6 +744,7 @@ def in_scope(tpl, stmts):
 
 def safe_programs(rng, tier):
     full = []
+    must = []      # the quick tier keeps every build-up once at module and once at function level
     std = (["from django.utils.safestring import mark_safe"], "mark_safe")
     # 1. build-ups x scopes with the plain variable, and build-ups x argument forms at function level
     for (sname, stpl) in SCOPES:
@@ -752,6 +753,8 @@ def safe_programs(rng, tier):
                 body = list(stmts) + ["mark_safe(%s)" % arg.replace("\n    ", "\n")]
                 src = "\n".join(std[0]) + "\n" + in_scope(stpl, body)
                 full.append(prog(src, ["B703"]))
+                if arg == "v" and sname in ("module", "func"):
+                    must.append(full[-1])
     n_core = len(full)
     # 2. every argument form x a few build-ups x a few scopes
     for arg in SAFE_ARGS:
@@ -783,7 +786,7 @@ def safe_programs(rng, tier):
     full.append(prog("mark_safe(v)\nfrom django.utils.safestring import mark_safe\nmark_safe(v)", ["B703"]))
     full.append(prog("def f():\n    from django.utils import safestring\nmark_safe(v)", ["B703"]))
     if tier == "quick":
-        return pick(rng, full[:n_core], 420) + pick(rng, full[n_core:n_args], 200) + full[n_args:]
+        return must + pick(rng, full[:n_core], 250) + pick(rng, full[n_core:n_args], 150) + full[n_args:]
     return full
 
 
